@@ -41,6 +41,7 @@ def step (line : String) : String :=
     match chosenFile (fsOf (if present == "-" then [] else present.splitOn ",")) with
     | some (s, _) => s
     | none => "none"
+  | "hist" :: toks => histStep toks
   | _ => "bad-op"
 
 def main : IO Unit := mainLoop step
